@@ -124,6 +124,20 @@ impl Check for C08 {
         let known = self.known.lookup("C08", &sig);
         let mut detail = json!({"cell": sig, "w": w, "d": d, "seeds": c.seeds, "fraction": s1.mean, "se": s1.se, "delta": c.delta, "ratio_to_delta": s1.mean / c.delta, "known_finding": known.is_some()});
         let inner = c.seeds as u64 * PROBES;
+        if let Some(k) = known {
+            // a recorded finding: always reported as such (with this run's measurement); it is a
+            // violation only above the recorded ceiling
+            let ceil = k.ceiling.unwrap_or(f64::INFINITY);
+            let msg = format!("{} (w = {}, d = {}): measured fraction {:.5} +- {:.5} over {} seeds x {} probes, delta = {} (ratio {:.2}), recorded ceiling {}", sig, w, d, s1.mean, s1.se, c.seeds, PROBES, c.delta, s1.mean / c.delta, ceil);
+            if s1.mean - Z * s1.se > ceil {
+                let (x2, _, _) = measure(c, mix_str(c.seed, "confirm"), 4 * c.seeds);
+                let s2 = summarize(&x2);
+                if s2.mean - Z * s2.se > ceil {
+                    return fail(format!("{}:above-recorded-ceiling", sig), format!("{} — confirmed {:.5} +- {:.5}: above the ceiling recorded for this known finding", msg, s2.mean, s2.se));
+                }
+            }
+            return fail(sig, msg);
+        }
         if !mean_above(&x1, c.delta, Z) {
             return Verdict::Pass(Info::new(powered, hash64(&sig)).class(shape).class_if(powered, "powered").detail(detail).inner(inner));
         }
@@ -137,13 +151,6 @@ impl Check for C08 {
             "{} (w = {}, d = {}): the overestimate exceeds epsilon*N for a fraction {:.5} +- {:.5} of (seed, element) pairs ({} seeds x {} probes), allowed delta = {} (ratio {:.2}); first measurement {:.5}",
             sig, w, d, s2.mean, s2.se, 4 * c.seeds, PROBES, c.delta, s2.mean / c.delta, s1.mean
         );
-        if let Some(k) = known {
-            if let Some(ceil) = k.ceiling {
-                if s2.mean - Z * s2.se > ceil {
-                    return fail(format!("{}:above-recorded-ceiling", sig), format!("{} — above the ceiling {} recorded for this known finding", msg, ceil));
-                }
-            }
-        }
         fail(sig, msg)
     }
 }
